@@ -6,6 +6,9 @@ sys.path.insert(0, ROOT)
 sizes = {}
 for i in range(1, 21):
     m = importlib.import_module(f'vp.props.c{i:02d}')
+    if i == 5:       # C05 evaluates several expressions per case: the cell counts expressions
+        sizes['C05'] = tuple(sum(c.get('n_exprs', 1) for c in m.plan(t, 0)) for t in ('quick', 'thorough'))
+        continue
     sizes[f'C{i:02d}'] = (len(m.plan('quick', 0)), len(m.plan('thorough', 0)))
 p = os.path.join(ROOT, 'DESIGN.md')
 s = open(p).read()
@@ -13,7 +16,7 @@ a = s.index('## 3. Per-property monitors')
 b = s.index('**not_applicable**')
 sec = s[a:b]
 for pid, (q, t) in sizes.items():
-    suf = ' x 25' if pid == 'C05' else ''     # C05 evaluates 25 expressions per case
+    suf = ''
     sec, n = re.subn(r'(^\| %s \|.*\| )\d+(?: x 25)? / \d+(?: x 25)?( \|$)' % pid,
                      lambda m_: f'{m_.group(1)}{q}{suf} / {t}{suf}{m_.group(2)}', sec, flags=re.M)
     assert n == 1, pid
